@@ -234,6 +234,9 @@ func (StaticScan) Run(rc RunCtx) UnitResult {
 	for _, s := range sites {
 		res.Samples = append(res.Samples, s)
 		res.Outcomes["map-range-site"]++
+		if id, ok := s["id"].(string); ok {
+			res.Outcomes["map-range-site-id:"+id] = 1
+		}
 	}
 	for _, f := range other {
 		kind, _ := f["kind"].(string)
